@@ -84,7 +84,22 @@ unsafe impl CastFrom<M9> for dyn Obj { fn cast(t: *mut M9) -> *mut Self { t.cast
 implementor!(M10, 10, [u64; 8], [10; 8]);   // its cast moves the address by 16 bytes: wrong, but still INSIDE the object
 unsafe impl CastFrom<M10> for dyn Obj { fn cast(t: *mut M10) -> *mut Self { t.cast::<u8>().wrapping_add(16).cast::<M10>() } }
 
-pub const NTY: u64 = 11;
+// ten more ordinary implementors: tables with more than 16 registered types
+implementor!(M11, 11, u8, 1); implementor!(M12, 12, u16, 2); implementor!(M13, 13, u32, 3); implementor!(M14, 14, [u8; 3], [4; 3]);
+implementor!(M15, 15, (u8, u8), (5, 5)); implementor!(M16, 16, [u16; 5], [6; 5]); implementor!(M17, 17, bool, true);
+implementor!(M18, 18, char, 'x'); implementor!(M19, 19, [u64; 2], [9; 2]); implementor!(M20, 20, i64, -1);
+unsafe impl CastFrom<M11> for dyn Obj { fn cast(t: *mut M11) -> *mut Self { t } }
+unsafe impl CastFrom<M12> for dyn Obj { fn cast(t: *mut M12) -> *mut Self { t } }
+unsafe impl CastFrom<M13> for dyn Obj { fn cast(t: *mut M13) -> *mut Self { t } }
+unsafe impl CastFrom<M14> for dyn Obj { fn cast(t: *mut M14) -> *mut Self { t } }
+unsafe impl CastFrom<M15> for dyn Obj { fn cast(t: *mut M15) -> *mut Self { t } }
+unsafe impl CastFrom<M16> for dyn Obj { fn cast(t: *mut M16) -> *mut Self { t } }
+unsafe impl CastFrom<M17> for dyn Obj { fn cast(t: *mut M17) -> *mut Self { t } }
+unsafe impl CastFrom<M18> for dyn Obj { fn cast(t: *mut M18) -> *mut Self { t } }
+unsafe impl CastFrom<M19> for dyn Obj { fn cast(t: *mut M19) -> *mut Self { t } }
+unsafe impl CastFrom<M20> for dyn Obj { fn cast(t: *mut M20) -> *mut Self { t } }
+
+pub const NTY: u64 = 21;
 pub const BAD: u64 = 6;
 
 macro_rules! with_m {
@@ -93,8 +108,11 @@ macro_rules! with_m {
             0 => { type $T = M0; $body } 1 => { type $T = M1; $body } 2 => { type $T = M2; $body }
             3 => { type $T = M3; $body } 4 => { type $T = M4; $body } 5 => { type $T = M5; $body }
             6 => { type $T = M6; $body } 7 => { type $T = M7; $body } 8 => { type $T = M8; $body }
-            9 => { type $T = M9; $body }
-            _ => { type $T = M10; $body }
+            9 => { type $T = M9; $body } 10 => { type $T = M10; $body }
+            11 => { type $T = M11; $body } 12 => { type $T = M12; $body } 13 => { type $T = M13; $body } 14 => { type $T = M14; $body }
+            15 => { type $T = M15; $body } 16 => { type $T = M16; $body } 17 => { type $T = M17; $body } 18 => { type $T = M18; $body }
+            19 => { type $T = M19; $body }
+            _ => { type $T = M20; $body }
         }
     };
 }
@@ -266,6 +284,14 @@ pub fn gen_history(rng: &mut Rng, max_len: u64, with_bad: bool) -> Vec<Op> {
     let mut serial = 0;
     let mut holding = false;
     let mut ops = Vec::new();
+    // one history in five starts with a big table: (nearly) every type registered, in a random order, most of them inserted
+    if rng.chance(1, 5) {
+        let bad = [6u64, 7, 9, 10];
+        let mut ks: Vec<u64> = (0..NTY).filter(|k| with_bad || !bad.contains(k)).collect();
+        for i in (1..ks.len()).rev() { let j = rng.below(i as u64 + 1) as usize; ks.swap(i, j); }
+        for k in &ks { ops.push(Op::Reg(*k)); }
+        for k in &ks { if !bad.contains(k) && rng.chance(3, 4) { serial += 1; ops.push(Op::Ins(*k, serial, rng.below(500))); } }
+    }
     for _ in 0..len {
         let k = rng.below(nty);
         let c = rng.below(100);
